@@ -28,7 +28,7 @@ def tie2(theorems, sources):
             "audit": "Qvnt/Audit/GenRegs2.lean", "sources": sources}
 
 
-TB_TIE2 = "translator tools/rs2lean2.py (collection-level Rust subset: iterator pipelines over Vec/VecDeque as lists, &mut methods as state-passing functions, loops with fuel, Option for unwrap/unreachable, `match self.th` reduced to the sequential arm after checking that the parallel arm is its rayon twin, random draws as inputs; regenerates Generated/Regs.lean from src/register/quant.rs, src/operator/{single,multi}/mod.rs, src/operator/multi/h.rs, src/math/bits_iter.rs, src/register/class.rs on every run; Lemmas/GenRegs2.lean proves every translated function equal to the model definition) - the translator and the dozen list combinators of Model/RustStd.lean are trusted, the output is not"
+TB_TIE2 = "translator tools/rs2lean2.py (collection-level Rust subset: iterator pipelines over Vec/VecDeque as lists, &mut methods as state-passing functions, loops with fuel, Option for unwrap/unreachable, `match self.th` reduced to the sequential arm after checking that the parallel arm is its rayon twin, random draws as inputs; regenerates Generated/Regs.lean from src/register/quant.rs, src/operator/{single,multi}/mod.rs, src/operator/multi/h.rs, src/operator/mod.rs and src/operator/single/{pauli,rotate,swap}.rs (public constructors), src/math/bits_iter.rs, src/register/{class,virtl}.rs, src/qasm/int/ext_op.rs on every run; Lemmas/GenRegs2.lean proves every translated function equal to the model definition) - the translator and the dozen list combinators of Model/RustStd.lean are trusted, the output is not"
 TB_TIE_REG = "translator tools/rs2lean.py (straight-line Rust subset -> Lean; regenerates the classical-register functions of src/register/class.rs on every run; Lemmas/GenRegs.lean proves each equal to the model's CReg function) - the translator itself is trusted, its output is not"
 TB_TIE = "translator tools/rs2lean.py (straight-line Rust subset -> Lean; regenerates Generated/Kernels.lean from the current src/operator/atomic/*.rs, math/mod.rs, dispatch.rs on every run; Lemmas/GenKernels.lean proves each translated function equal to the model definition over any commutative ring) - the translator itself is trusted, its output is not"
 
@@ -77,7 +77,7 @@ PROPS = {
     },
     "C07": {
         "modules": ["Qvnt.Props.C07"],
-        "tie": [tie2(r"quant_(get_probabilities|get_absolute|measure_mask|collapse_mask|rescale)_eq", r"UNSUPPORTED quant\.rs: register/quant\.rs::(collapse_mask|rescale|measure_mask|get_absolute|get_probabilities):")],
+        "tie": [tie2(r"quant_(get_probabilities|get_absolute|measure_mask|collapse_mask|rescale|sample_all)_eq|proposal_eq", r"UNSUPPORTED quant\.rs: register/quant\.rs::(collapse_mask|rescale|measure_mask|get_absolute|get_probabilities|sample_all):")],
         "suites": [suite("meas", dict(count=200, max_n=5), dict(count=4000, max_n=8)),
                    suite("born", dict(count=12, shots=2048), dict(count=300, shots=16384))],
         "mismatch_tags": [r"probs", r"measure.*"],
@@ -167,17 +167,18 @@ PROPS = {
     },
     "C09": {
         "modules": ["Qvnt.Props.C09"],
+        "tie": [tie2(r"pauli_\w+_eq|rotate_\w+_eq|swapmod_\w+_eq|op_\w+_eq|checked_eq|h_(loop|h)_eq", r"UNSUPPORTED (mod\.rs: operator/mod\.rs|h\.rs|pauli\.rs|rotate\.rs|swap\.rs|mod\.rs: operator/single/mod\.rs::(from|single_op_checked):)")],
         "suites": [
             suite("c09", dict(count=2500), dict(count=60000)),
             suite("int", dict(count=150), dict(count=3000)),
         ],
         "mismatch_tags": [r"igate.*", r"iadd.*", r"inew", r"ixor"],
         "spec_tags": [r"c09\..*"],
-        "trusted_base": TB_COMMON + ["translator tools/extract.py: the gate-name table and the canonical-form flags of the gate! macro arms are regenerated from src/qasm/int/gates.rs on every run; C09_table_* / C09_arms_canonical are re-proved by decide over the regenerated table"],
+        "trusted_base": [TB_TIE2] + TB_COMMON + ["translator tools/extract.py: the gate-name table and the canonical-form flags of the gate! macro arms are regenerated from src/qasm/int/gates.rs on every run; C09_table_* / C09_arms_canonical are re-proved by decide over the regenerated table"],
         "assumptions": ASSUME_COMMON + ["qelib1.inc in the repository is an empty stub; the reference definitions (Spec/RefSem.lean, Spec.qelib) are transcribed by hand from the OpenQASM 2.0 paper and the standard qelib1.inc"],
         "level_text": "Lean theorems (Props/C09.lean, 39): the regenerated gate table has exactly the 22 expected names, each bound to the expected macro arm and constructor, upper case = lower case, every macro arm has the canonical text the model mirrors (all by decide over the generated file, so a rebound row, a swapped argument or a dropped .dgr() fails the build); for every table name Gates.process builds exactly what the operator-level program for that name builds (sdg/tdg the daggered gate, u2/u3 with parameters in written order), hence by build_refines the documented matrix; k leading c's take the first k arguments as controls and act as the base gate where all of them are 1 (C09_ctrl_k, C09_ctrl_block); arity errors are characterised; the 14 one-qubit standard names agree with their qelib1.inc definition over U(theta,phi,lambda) up to a global phase (over the reals). Tied to the code by calling the real gates::process on every accepted name (0-2 leading c, upper/lower case, random qubits and parameters) and comparing with the model; oracle: the qelib1.inc definition body evaluated on the same input, up to one global phase (cx cy cz ch ccx crz cu1 cu3 swap cswap included), and the documented matrix for extensions.",
         "level_note": "Trusted: Lean kernel + standard axioms; the translator for the table; hand-written model of the macro arms and the c-prefix recursion (validated by correspondence and by the canonical-text flags). Known finding D9: cu1 is controlled-RZ, not qelib1's controlled phase (C09_cu1_is_crz, C09_cu1_partial).",
-        "technique": "Lean 4 proof over a model whose gate table is regenerated from the source + differential correspondence check",
+        "technique": "Lean 4 proof over a model whose gate table is regenerated from the source and whose public gate constructors (operator/mod.rs, single/{pauli,rotate,swap}.rs, multi/h.rs) are proved equal to the Rust source translated on every run (tools/rs2lean2.py) + differential correspondence check",
         "design_ref": "DESIGN.md section 5, C09",
     },
     "C10": {
@@ -208,7 +209,7 @@ PROPS = {
     },
     "C15": {
         "modules": ["Qvnt.Props.C15"],
-        "tie": [tie2(r"h_(loop|h)_eq", r"UNSUPPORTED h\.rs")],
+        "tie": [tie2(r"h_(loop|h)_eq|op_h_eq", r"UNSUPPORTED (h\.rs|mod\.rs: operator/mod\.rs::h:)")],
         "suites": [suite("dft", dict(count=500, max_n=6), dict(count=6000, max_n=9))],
         "mismatch_tags": None,
         "spec_tags": [r"dft"],
@@ -234,14 +235,15 @@ PROPS = {
     },
     "C16": {
         "modules": ["Qvnt.Props.C16"],
+        "tie": [tie2(r"quant_sample_all_eq|surplus_loop_eq|updateSelected_eq_go|proposal_eq|quant_get_probabilities_eq", r"UNSUPPORTED quant\.rs: register/quant\.rs::(sample_all|get_probabilities):")],
         "suites": [suite("sample", dict(count=600, max_n=6), dict(count=20000, max_n=10))],
         "mismatch_tags": [r"sample"],
         "spec_tags": [r"c16\..*"],
-        "trusted_base": TB_COMMON,
+        "trusted_base": [TB_TIE2] + TB_COMMON,
         "assumptions": ASSUME_COMMON + ["the standard-normal draws are inputs of the model (for single-threaded registers the harness reproduces them from the seeded generator; with several threads the order of the draws is not reproducible and only the postconditions are checked)", "stage 1 (floating-point proposal) is modelled at Float; C16_zero assumes round(0) <= 0 and sqrt 0 * x = 0 as explicit hypotheses"],
         "level_text": "Lean theorems (Props/C16.lean) about the integer correction pass of sample_all (after the D4/D5 repair), for EVERY proposal vector, every positivity pattern and every shot count: the pass never indexes out of bounds and its surplus walk terminates within the stated fuel, the result has 2^n cells, sums to exactly the requested count whenever some outcome is possible, and cells of zero probability keep zero shots; lifted to sample_all with the Gaussian draws as an input list. Tied to the code by the sample suite: sparse states on 0..6 qubits (0..10 thorough), counts 0/1/odd/large, both threading models; for single-threaded registers the model reproduces the exact histogram from the same draws; the three postconditions are checked on every implementation output.",
         "level_note": "Trusted: Lean kernel + standard axioms; hand-written model of sample_all; rand_distr::StandardNormal and the seeded generator hook (cfg qvnt_verif) as the source of the draws.",
-        "technique": TECH,
+        "technique": tech_tie("whole of sample_all (Gaussian proposal with the normal draws as an input list, deficit distribution over the possible outcomes, surplus walk) is"),
         "design_ref": "DESIGN.md section 5, C16",
     },
     "C20": {
@@ -261,7 +263,7 @@ PROPS = {
     },
     "C01": {
         "modules": ["Qvnt.Props.C01"],
-        "tie": [tie(r".*_(op|isValid|actsOn|new)_eq|rotate_eq|negWord_eq|yIPow_eq|forEach_eq|ctrlTest_iff|count_bits_eq", sources=r"UNSUPPORTED (?!class\.rs|dispatch\.rs: dispatch\.rs::for_each_par)"), tie2(r"single_(apply|from)_eq|multi_apply_eq|quant_apply_eq|h_(loop|h)_eq", r"UNSUPPORTED (mod\.rs|h\.rs|quant\.rs: register/quant\.rs::apply:)")],
+        "tie": [tie(r".*_(op|isValid|actsOn|new)_eq|rotate_eq|negWord_eq|yIPow_eq|forEach_eq|ctrlTest_iff|count_bits_eq", sources=r"UNSUPPORTED (?!class\.rs|dispatch\.rs: dispatch\.rs::for_each_par)"), tie2(r"single_(apply|from)_eq|multi_apply_eq|quant_apply_eq|h_(loop|h)_eq|pauli_\w+_eq|rotate_\w+_eq|swapmod_\w+_eq|op_\w+_eq|checked_eq", r"UNSUPPORTED (mod\.rs|h\.rs|pauli\.rs|rotate\.rs|swap\.rs|quant\.rs: register/quant\.rs::apply:)")],
         "suites": [
             suite("c01x", dict(count=0, max_n=3), dict(count=0, max_n=4)),
             suite("c01", dict(count=800, max_n=6), dict(count=20000, max_n=9)),
